@@ -9,6 +9,7 @@ PRELUDE = """    #[diplomat::opaque]
     pub struct St1<'p> { pub f: &'p Opq }
     pub struct St2<'p, 'q> { pub f: &'p Opq, pub g: &'q Opq }
     pub struct St2b<'p, 'q: 'p> { pub f: &'p Opq, pub g: &'q Opq }
+    pub struct Nst2<'p, 'q> { pub a: St1<'p>, pub b: St2<'q, 'q> }
 """
 ALLFEATURES = {"name": "verif", "other": [], "supports": profiles.FEATURES}
 
@@ -26,7 +27,8 @@ def pty(p):
     return {"opq": lambda: amp(s[0]) + "Opq", "optopq": lambda: "Option<%sOpq>" % amp(s[0]),
             "slice": lambda: amp(s[0]) + "[u8]", "opqlt": lambda: "%sOpLt<%s>" % (amp(s[0]), lt(s[1])),
             "st1": lambda: "St1<%s>" % lt(s[0]), "st2": lambda: "St2<%s, %s>" % (lt(s[0]), lt(s[1])),
-            "st2b": lambda: "St2b<%s, %s>" % (lt(s[0]), lt(s[1]))}[k]()
+            "st2b": lambda: "St2b<%s, %s>" % (lt(s[0]), lt(s[1])),
+            "nst2": lambda: "Nst2<%s, %s>" % (lt(s[0]), lt(s[1]))}[k]()
 
 
 def rty(r):
@@ -229,8 +231,9 @@ def run(rep, tier):
     wd = rep.wd
     L = ["a", "b"]
     rep.rule = ("signatures = every method over L={a,b} with any declared-bound graph, self in {none,&self,&self of Sf<'a,'b: 'a>}, "
-                "1 parameter of 7 kinds with slots over L+{'static,'_}, 7 return kinds (quick: full enumeration by TLC, seeded "
-                "subset replayed; thorough: all replayed + 2-parameter and 3-lifetime samples); expected edge list per output "
+                "1 parameter of 8 kinds (incl. a struct nesting borrowing structs) with slots over L+{'static,'_}, 7 return kinds (quick: full "
+                "enumeration by TLC, seeded subset replayed, plus every 3-lifetime bound graph over &self + 1..2 &Opaque parameters; thorough: all "
+                "replayed + 2-parameter, 3-lifetime and 4-lifetime samples); expected edge list per output "
                 "lifetime from MustKeep; non-trivial = distinct signatures with a non-empty expected edge set or expected rejection")
     rep.assumptions += ["a parameter whose only qualifying lifetime is 'static is never required (nor forbidden) as an edge",
                         "Rust's outlives rules as transcribed: declared bounds, &'x T<'y> => 'y: 'x, definition-site bounds of used types incl. Self"]
@@ -265,7 +268,8 @@ def run(rep, tier):
     # three lifetimes: outlives graphs with cycles, redundant bounds and diamonds (the worklist of
     # all_longer_lifetimes meets a lifetime twice only from three lifetimes on)
     for cfg, LL in ((("emit_3l_quick.cfg", ["a", "b", "c"]),) if tier == "quick" else
-                    (("emit_3l_quick.cfg", ["a", "b", "c"]), ("emit_2p.cfg", ["a", "b"]), ("emit_3l.cfg", ["a", "b", "c"]))):
+                    (("emit_3l_quick.cfg", ["a", "b", "c"]), ("emit_2p.cfg", ["a", "b"]), ("emit_3l.cfg", ["a", "b", "c"]),
+                     ("emit_4l.cfg", ["a", "b", "c", "d"]))):
         if True:
             e2 = lib.tlc("life", "MC_Lifetimes", cfg, workers=2, coverage=False, heap="8g")
             lib.tlc_expect_ok(e2, cfg)
